@@ -18,6 +18,7 @@ package main
 // computed here.
 
 import (
+	"sync"
 	"fmt"
 	"math/rand"
 	"sort"
@@ -659,11 +660,33 @@ func lenClassName(n int) string {
 	}
 }
 
+// recordC10: the scenarios are recorded from several goroutines at once (each with its own generator and
+// recycled sequence objects): the matcher and the Go re-alignment are used by the worker pools of
+// obimultiplex / obipcr, so scratch memory shared between calls must show up here.
 func recordC10(env *Env) {
-	rng := env.rng
+	const workers = 8
+	var wg sync.WaitGroup
+	for g := 0; g < workers; g++ {
+		wg.Add(1)
+		go func(g int) {
+			defer wg.Done()
+			n := env.n / workers
+			if g < env.n%workers {
+				n++
+			}
+			recordC10Part(env, rand.New(rand.NewSource(env.seed*1000+int64(g))), n, g)
+		}(g)
+	}
+	wg.Wait()
+}
+
+func recordC10Part(env *Env, rng *rand.Rand, count int, part int) {
 	pool := newSeqPool(rng, 4)
-	big := env.optInt("big", 8) // number of very long sequences
-	for i := 0; i < env.n; i++ {
+	big := env.optInt("big", 8) / 8 // number of very long sequences (per part)
+	if part == 0 {
+		big = env.optInt("big", 8) - 7*big
+	}
+	for i := 0; i < count; i++ {
 		if i%9 == 8 {
 			recordLocate(env, rng)
 			continue
